@@ -9,3 +9,15 @@ func IsDistributionFilled(distribution map[uint]uint) bool {
 
 	return true
 }
+
+// Reports whether each of the specified priorities has a non-zero quantity in
+// the distribution (a priority without an entry has a zero quantity).
+func IsDistributionFilledFor(distribution map[uint]uint, priorities []uint) bool {
+	for _, priority := range priorities {
+		if distribution[priority] == 0 {
+			return false
+		}
+	}
+
+	return true
+}
